@@ -487,6 +487,16 @@ class Aspire:
                 kwargs.update(self._resume_overrides)
             if hasattr(self, "_resume_n_samples") and n_samples == 1000:
                 n_samples = self._resume_n_samples
+            # The checkpoint primed by resume_from_file is resumed once: a
+            # later call on this instance starts a new run
+            for attr in (
+                "_resume_from_default",
+                "_resume_sampler_type",
+                "_resume_n_samples",
+                "_resume_overrides",
+            ):
+                if hasattr(self, attr):
+                    delattr(self, attr)
 
         SamplerClass = self.get_sampler_class(sampler)
         # Determine sampler initialization parameters
